@@ -50,6 +50,30 @@ def _pid_of(o) -> str:
     return o.oid.split("/", 1)[0]
 
 
+TRUST_C = ["C: clang 14's typed JSON AST of the real source (x86-64 LP64 sizes; natural alignment computed by vf/csym/ctypes_.py); my interpreter "
+           "of the AST node kinds used (vf/csym/interp.py, generic.py): byte-wise typed access in target byte order, strict aliasing and "
+           "alignment not modelled, objects of type bool hold 0/1, big-endian runs assume an LP64 big-endian target",
+           "C: every signed overflow, bad shift, out-of-bounds or uninitialised access, division by zero is an obligation (source semantics; "
+           "compiler optimisation levels are not enumerated); static locals other than `static const` hold arbitrary contents at first use",
+           "C: libc calls (memset / memcpy modelled; vsprintf / vsnprintf / va_start / va_end by their C99 contracts) are external",
+           "C generic mode: products / quotients of two symbolic operands as uninterpreted functions with lemma instances proved over the "
+           "mathematical integers (machine arithmetic treated as mathematical under the stated no-overflow bounds)"]
+TRUST_GO = ["Go: my own Go-subset parser and interpreter (vf/gosym) - there is no Go tool chain in this sandbox to cross-check it; int is 64-bit "
+            "two's complement with wrap-around, shifts / conversions / slices / defer / method sets as in the Go spec for the subset used; "
+            "goroutines, maps, closures, generics are outside the subset (exit 3 if met)",
+            "Go: interface values whose dynamic type is not under proof are abstract objects known only by the stated contract"]
+
+
+def _trusted(chk, results):
+    out = list(chk.trusted_base)
+    pids = [r.pid for r in results]
+    if any(p.startswith(("gen-c:", "c[")) for p in pids):
+        out += TRUST_C
+    if any(p.startswith(("gen-go:", "go:")) for p in pids):
+        out += TRUST_GO
+    return out
+
+
 def write_replay(prop: str, o: OB.Obligation, results_by_pid: Dict[str, ProofResult]) -> (str, bool):
     """Write the replay file for a refuted obligation. Returns (path, reproduced_natively)."""
     os.makedirs(os.path.join(REPL, prop), exist_ok=True)
@@ -250,7 +274,7 @@ def write_evidence(chk, tier, seed, results, obls, wall, violations, known_hits,
         "discharged": n_ok,
         "obligations_refuted_and_attributed_to_open_known_findings": n_known,
         "checker_cmd": "bin/vcheck %s --tier %s" % (prop, tier),
-        "trusted_base": chk.trusted_base,
+        "trusted_base": _trusted(chk, results),
         "obligations_generic": len(generic),
         "obligations_per_program": len(program),
         "refuted": sum(1 for o in obls if o.verdict == "refuted"),
